@@ -156,6 +156,9 @@ def check(ctx):
     # a rec binder that reuses the name of a parameter, used again after the recursion
     corpus.append({"main.oal": 'use "mod.oal" as m;\nlet node x = { \'label m.name, \'sub rec x { \'id m.x, \'kids [x] }, \'payload x };\nres /n on get -> <node num>;\n',
                    "mod.oal": "let name = str;\nlet x = int;\n"})
+    # one scope receiving a name twice: the later binder wins (repeated parameter; two modules under one qualifier)
+    corpus.append({"main.oal": 'use "lib_c.oal" as m;\nuse "lib_d.oal" as m;\nlet f p p = { \'a p };\nlet w = m.v;\nres /x on get -> <f num str> :: <status=404, w>;\n',
+                   "lib_c.oal": "let v = bool;\n", "lib_d.oal": "let v = int;\n"})
     n = 120 if ctx.thorough else 10
     wss = corpus + [lspws.gen_workspace(ctx.rng) for _ in range(n)]
     for i, files in enumerate(wss):
